@@ -22,7 +22,9 @@ Core:
                          8-axis limit at the default block size 128);
 * `C18_pytree`           leaf-wise for trees; `C18_real_rotation` instantiates `c = 1/√d` over `ℝ`;
 * `C18_signs_distinct`   different sign vectors give different rotations (when `2 ≠ 0`);
-* `C18_rejects`          the code's explicit rejections.
+* `C18_rejects`          the code's explicit rejections;
+* `C18_diag_recover`     `H·rotU signs ones = d·(signs ⊙ pad ones)`: the sign diagonal of a key can be read off the
+                         rotation of the all-ones input (how the harness obtains `D` from the implementation).
 Not a theorem: "different keys draw different sign vectors" (idealised PRNG; monitored by the harness).
 -/
 
@@ -968,5 +970,37 @@ example : rotU [-1] ([7] : List Int) = .ok [-7] ∧ invRotU [-1] ([-7] : List In
 example : rotU [1, -1, -1, 1] ([2, 1, 5] : List Int) = .ok [-4, -2, 6, 8] := by decide
 -- different signs do give different rotations on a unit vector
 example : rotU [1, 1] ([1, 0] : List Int) ≠ rotU [-1, 1] ([1, 0] : List Int) := by decide
+
+/-! ## the sign diagonal is observable through the rotation of ones -/
+
+section recover
+variable {α : Type} [CommRing α]
+
+/-- **C18 (the diagonal is observable).** Whatever ±1 (indeed: whatever integer) vector `signs` a key
+stands for, it can be read off the rotation of the all-ones input: `H·(H·D·pad 1) = d·(D·pad 1)`, i.e. entry
+`i < n` of `H·rotU signs ones / d` is `signs[i]` and the padding entries are `0`. This is what the harness uses to
+recover `D` from the implementation instead of predicting the random stream. -/
+theorem C18_diag_recover (signs : List Int) (n : Nat) (h1 : 1 ≤ n) (h56 : n ≤ 2 ^ 56)
+    (hl : signs.length = 2 ^ ceilLog2 n) :
+    ∃ y, rotU signs (List.replicate n (1 : α)) = .ok y ∧
+      hmul (ceilLog2 n) y =
+        (List.zipWith (fun v (s : Int) => v * (s : α)) (padTo (2 ^ ceilLog2 n) (List.replicate n (1 : α))) signs).map
+          (fun v => (2 : α) ^ ceilLog2 n * v) := by
+  have hlen : (List.replicate n (1 : α)).length = n := List.length_replicate
+  obtain ⟨e, hpad⟩ := rotU_eq (α := α) signs (List.replicate n 1) (by rw [hlen]; exact h1) (by rw [hlen]; exact h56)
+    (by rw [hlen]; exact hl)
+  rw [hlen] at e hpad
+  refine ⟨_, e, ?_⟩
+  exact hmul_hmul _ _ (by simp [hpad, hl])
+
+end recover
+
+example : ∃ y, rotU [1, -1, -1, 1] (List.replicate 3 (1 : ℤ)) = .ok y ∧
+    hmul 2 y = [4, -4, -4, 0] := by
+  obtain ⟨y, h1, h2⟩ := C18_diag_recover (α := ℤ) [1, -1, -1, 1] 3 (by decide) (by decide) (by decide)
+  refine ⟨y, h1, ?_⟩
+  have e : ceilLog2 3 = 2 := by decide
+  rw [e] at h2
+  rw [h2]; decide
 
 end FedjaxVerif.Hadamard
